@@ -2,7 +2,8 @@
    wrapper lemmas; Props/C06.v restates them with `exact`. *)
 From Coq Require Import List ZArith Bool Lia Permutation.
 From MV Require Import Store.AMap Store.SetSpec Store.Generic Store.Simple Store.Indexed Store.MultiIndexed
-  Store.MultiIndexedArray Store.Wrappers Store.AMapProofs Store.GenericProofs Store.SimpleProofs Store.WrappersProofs.
+  Store.MultiIndexedArray Store.Wrappers Store.AMapProofs Store.GenericProofs Store.SimpleProofs Store.WrappersProofs Store.NestedProofs Store.ArrayProofs
+  Store.IndexedProofs Store.MultiProofs Store.ComposeProofs.
 Import ListNotations.
 Open Scope Z_scope.
 
@@ -21,6 +22,43 @@ Proof.
   - apply incl_refl.
 Qed.
 
+Lemma array_refines (hash : atom -> Z) (chash : Z -> Z) (h : list op) :
+  Forall2 out_covers (run (g_step (array_impl hash chash)) g_empty h) (run s_step [] h).
+Proof.
+  apply (refines_set_on (array_impl hash chash) (a_elems) (a_WF hash chash) (fun _ _ => True)
+           (array_shard_ok hash chash) (history_atoms h)).
+  - intros; exact I.
+  - apply R_empty.
+  - intros x [].
+  - apply incl_refl.
+Qed.
+
+Lemma indexed_refines (hash : atom -> Z) (chash : Z -> Z) (h : list op) :
+  collision_free hash h ->
+  Forall2 out_covers (run (g_step (indexed_impl hash chash)) g_empty h) (run s_step [] h).
+Proof.
+  intros Hcf.
+  apply (refines_set_on (indexed_impl hash chash) (i_elems) (i_WF hash chash) (s_ok2 hash)
+           (indexed_shard_ok hash chash) (history_atoms h)).
+  - intros a b Ha Hb E. apply Hcf; auto.
+  - apply R_empty.
+  - intros x [].
+  - apply incl_refl.
+Qed.
+
+Lemma multi_refines (hash : atom -> Z) (chash : Z -> Z) (h : list op) :
+  collision_free hash h ->
+  Forall2 out_covers (run (g_step (multi_impl hash chash)) g_empty h) (run s_step [] h).
+Proof.
+  intros Hcf.
+  apply (refines_set_on (multi_impl hash chash) (m_elems) (m_WF hash chash) (s_ok2 hash)
+           (multi_shard_ok hash chash) (history_atoms h)).
+  - intros a b Ha Hb E. apply Hcf; auto.
+  - apply R_empty.
+  - intros x [].
+  - apply incl_refl.
+Qed.
+
 Lemma simple_collision (hash : atom -> Z) (a b : atom) :
   a <> b -> hash a = hash b -> pred_of a = pred_of b ->
   ~ Forall2 out_covers (run (g_step (simple_impl hash)) g_empty [Add a; Add b]) (run s_step [] [Add a; Add b]).
@@ -33,6 +71,121 @@ Proof.
   - apply atom_eqb_spec in E. congruence.
   - simpl in H. inversion H as [|? ? ? ? _ H2]; subst. inversion H2 as [|? ? ? ? H3 _]; subst.
     simpl in H3. discriminate.
+Qed.
+
+(* ---- wrappers over stores that refine sets *)
+(* the documented domain of a wrapper whose read-only part holds B: Remove only
+   removes from the write store, a Merge brings no atom of B (finding N7) *)
+Definition wrapper_domain (B : sset) (o : op) : Prop :=
+  match o with Remove a => ~ In a B | Merge l => forall x, In x l -> ~ In x B | _ => True end.
+
+Lemma tee_run {S SB} (Out : store_ops S) (WB : store_ops SB) RelO DO RelB DB (U : atom -> Prop) :
+  set_like Out RelO DO -> set_like WB RelB DB -> reads_in U DB ->
+  forall stB B o O, RelB stB B -> RelO o O -> NoDup (B ++ O) ->
+  forall h, Forall (fun x => DO x /\ (forall a, In a (op_atoms x) -> U a /\ DO (Contains a)) /\ wrapper_domain B x) h ->
+  Forall2 out_covers (run (o_step (tee_ops Out (view WB stB))) o h) (run s_step (B ++ O) h).
+Proof.
+  intros HO HB Hr stB B o O HRB HRO Hnd h Hh.
+  apply (sim_run _ _ _ (tee_sim Out RelO DO U B HO (view WB stB) (view_refines WB RelB DB U stB B HB Hr HRB))).
+  - exists O. destruct (nodup_app_inv _ _ Hnd) as [H1 [H2 H3]]. split; auto. split; auto. split; auto.
+    intros x. rewrite in_app_iff. tauto.
+  - exact Hh.
+Qed.
+
+Lemma merged_run {S} (Out : store_ops S) RelO DO (U : atom -> Prop) reads Bs :
+  set_like Out RelO DO -> Forall2 (ro_refines U) reads Bs ->
+  forall o O, RelO o O -> NoDup (concat Bs ++ O) ->
+  forall h, Forall (fun x => DO x /\ (forall a, In a (op_atoms x) -> U a /\ DO (Contains a)) /\ wrapper_domain (concat Bs) x) h ->
+  Forall2 out_covers (run (o_step (merged_ops Out reads)) o h) (run s_step (concat Bs ++ O) h).
+Proof.
+  intros HO HBs o O HRO Hnd h Hh. destruct (nodup_app_inv _ _ Hnd) as [H1 [H2 H3]].
+  apply (sim_run _ _ _ (merged_sim Out RelO DO U (concat Bs) HO reads Bs HBs eq_refl H1)).
+  - exists O. split; auto. split; auto. split; auto. intros x. rewrite in_app_iff. tauto.
+  - exact Hh.
+Qed.
+
+Lemma hist_dom (U : atom -> Prop) h : (forall a, In a (history_atoms h) -> U a) -> Forall (in_dom U) h.
+Proof.
+  intros H. apply Forall_forall. intros o Ho a Ha. apply H. unfold history_atoms. apply in_flat_map. eauto.
+Qed.
+Lemma history_atoms_app h h' : history_atoms (h ++ h') = history_atoms h ++ history_atoms h'.
+Proof. unfold history_atoms. apply flat_map_app. Qed.
+Lemma reads_in_dom (U : atom -> Prop) : reads_in U (in_dom U).
+Proof.
+  split; [intros a Ha x [<-|[]]; exact Ha|]. split; [intros q x []|]. split; intros x [].
+Qed.
+Lemma wrap_dom_hist (U : atom -> Prop) B h :
+  (forall a, In a (history_atoms h) -> U a) -> Forall (wrapper_domain B) h ->
+  Forall (fun x => in_dom U x /\ (forall a, In a (op_atoms x) -> U a /\ in_dom U (Contains a)) /\ wrapper_domain B x) h.
+Proof.
+  intros HU Hd. pose proof (hist_dom U h HU) as Hh. rewrite Forall_forall in *.
+  intros o Ho. split; [apply Hh; auto|]. split; [|apply Hd; auto].
+  intros a Ha. split; [apply (Hh o Ho a Ha)|]. intros x [<-|[]]. apply (Hh o Ho a Ha).
+Qed.
+
+(* the in-memory store of any kind after a history, as a read-only component *)
+Lemma inmemory_after {T} (I : shard_impl T) e w k (U : atom -> Prop) :
+  shard_ok I e w k -> (forall a b, U a -> U b -> k a b) ->
+  forall hB, (forall a, In a (history_atoms hB) -> U a) ->
+  base_rel I e w U (final (g_step I) g_empty hB) (final s_step [] hB).
+Proof.
+  intros SO HU hB HB. rewrite (final_ext _ _ (g_step_o_step I)).
+  apply (sim_final _ _ _ (base_sim I e w k U SO HU)); [apply base_rel_empty|apply hist_dom; auto].
+Qed.
+
+Lemma tee_inmemory {TB TO} (IB : shard_impl TB) (IO : shard_impl TO) eB wB kB eO wO kO :
+  shard_ok IB eB wB kB -> shard_ok IO eO wO kO ->
+  forall hB h : list op,
+    (forall a b, In a (history_atoms (hB ++ h)) -> In b (history_atoms (hB ++ h)) -> kB a b /\ kO a b) ->
+    Forall (wrapper_domain (final s_step [] hB)) h ->
+    Forall2 out_covers
+      (run (o_step (tee_ops (g_ops IO) (view (g_ops IB) (final (g_step IB) g_empty hB)))) g_empty h)
+      (run s_step (final s_step [] hB) h).
+Proof.
+  intros SB SO hB h Hk Hd. set (U := fun a => In a (history_atoms (hB ++ h))).
+  assert (HUB : forall a, In a (history_atoms hB) -> U a).
+  { intros a Ha. unfold U. rewrite history_atoms_app. apply in_or_app; auto. }
+  assert (HUh : forall a, In a (history_atoms h) -> U a).
+  { intros a Ha. unfold U. rewrite history_atoms_app. apply in_or_app; auto. }
+  pose proof (inmemory_after IB eB wB kB U SB (fun a b Ha Hb => proj1 (Hk a b Ha Hb)) hB HUB) as HRB.
+  pose proof (tee_run (g_ops IO) (g_ops IB) _ _ _ _ U
+                (base_sim IO eO wO kO U SO (fun a b Ha Hb => proj2 (Hk a b Ha Hb)))
+                (base_sim IB eB wB kB U SB (fun a b Ha Hb => proj1 (Hk a b Ha Hb)))
+                (reads_in_dom U) _ _ g_empty [] HRB (base_rel_empty IO eO wO U)) as H.
+  rewrite app_nil_r in H. apply H.
+  - exact (r_nodup _ _ _ _ _ (proj1 HRB)).
+  - apply wrap_dom_hist; auto.
+Qed.
+
+(* read-only in-memory stores of one kind, each built by its own history *)
+Lemma merged_inmemory {TB TW} (IB : shard_impl TB) (IW : shard_impl TW) eB wB kB eW wW kW :
+  shard_ok IB eB wB kB -> shard_ok IW eW wW kW ->
+  forall (hBs : list (list op)) (h : list op),
+    (forall a b, In a (history_atoms (concat hBs ++ h)) -> In b (history_atoms (concat hBs ++ h)) -> kB a b /\ kW a b) ->
+    NoDup (concat (map (final s_step []) hBs)) ->
+    Forall (wrapper_domain (concat (map (final s_step []) hBs))) h ->
+    Forall2 out_covers
+      (run (o_step (merged_ops (g_ops IW) (map (fun hB => view (g_ops IB) (final (g_step IB) g_empty hB)) hBs))) g_empty h)
+      (run s_step (concat (map (final s_step []) hBs)) h).
+Proof.
+  intros SB SW hBs h Hk Hnd Hd. set (U := fun a => In a (history_atoms (concat hBs ++ h))).
+  assert (HUh : forall a, In a (history_atoms h) -> U a).
+  { intros a Ha. unfold U. rewrite history_atoms_app. apply in_or_app; auto. }
+  assert (HUB : forall hB, In hB hBs -> forall a, In a (history_atoms hB) -> U a).
+  { intros hB Hin a Ha. unfold U. rewrite history_atoms_app. apply in_or_app; left.
+    unfold history_atoms in *. apply in_flat_map in Ha. destruct Ha as [o [Ho Ha]].
+    apply in_flat_map. exists o. split; auto. apply in_concat. eauto. }
+  assert (HF : Forall2 (ro_refines U) (map (fun hB => view (g_ops IB) (final (g_step IB) g_empty hB)) hBs)
+                       (map (final s_step []) hBs)).
+  { clear Hnd Hd. induction hBs as [|hB hBs IH]; simpl; constructor.
+    - apply (view_refines (g_ops IB) _ _ U _ _
+               (base_sim IB eB wB kB U SB (fun a b Ha Hb => proj1 (Hk a b Ha Hb))) (reads_in_dom U)).
+      apply (inmemory_after IB eB wB kB U SB (fun a b Ha Hb => proj1 (Hk a b Ha Hb))). apply HUB. left; auto.
+    - apply IH. intros hB' Hin. apply HUB. right; auto. }
+  pose proof (merged_run (g_ops IW) _ _ U _ _
+                (base_sim IW eW wW kW U SW (fun a b Ha Hb => proj2 (Hk a b Ha Hb))) HF
+                g_empty [] (base_rel_empty IW eW wW U)) as H.
+  rewrite app_nil_r in H. apply H; auto. apply wrap_dom_hist; auto.
 Qed.
 
 (* boolean comparison of outputs, for finite sweeps *)
